@@ -1,8 +1,63 @@
-/- Driver for C06 (stub). -/
-import ControlModel.Basic
+/- Driver for C06 (monitor over Model/Own + Spec.C06 on the observed views). -/
+import Driver.OwnCommon
 
 namespace Driver.C06
+open Own Driver.OwnCommon
 
-def processLine (_line : String) : String := "UNIMPLEMENTED\t0\t-"
+/-- DESTROY / after_DESTROY hook roles of an environment as the model sees them. -/
+def hookRefs (e : EnvIn) : List HookRef :=
+  (e.roles.zipIdx).filterMap (fun p =>
+    if p.1.kind = .hook then some { task := p.2, weight := p.1.weight, after := p.1.after } else none)
+
+/-- Hypothesis of `C06_destroyed_clean_partial` excluded by finding destroy_hooks_unreleased. -/
+def singleWeightIn (e : EnvIn) : Bool := singleWeight (hookRefs e)
+
+/-- Hypothesis excluded by finding launch_pending_leak: no task of the environment is
+    scripted to be still starting (or dead) when its deployment is given up. -/
+def launchesPromptIn (e : EnvIn) : Bool := e.roles.all (fun r => r.kind == .call || r.launch == "ok")
+
+/-- Why `cleanAfter k keep v` fails: `some hyp` if every failing clause is explained by an
+    excluded hypothesis the input violates, `none` otherwise. -/
+def explain (sc : Scenario) (k : Nat) (keep : Bool) (v : View) : Option String :=
+  match sc.envs[k]? with
+  | none => none
+  | some e =>
+    let listed := !v.envs.all (fun E => decide (E.env ≠ k))
+    let owned := !v.roster.all (fun r => decide (r.owner ≠ some k))
+    let leak := !(keep || v.master.all (fun m => decide (m.label ≠ k) || m.killed || decide (m.mesos = .terminal)
+        || v.roster.any (fun r => decide (r.task = m.task) && decide (r.owner = none))))
+    let dets := !v.dets.all (fun d => v.envs.any (fun E => decide (d ∈ E.dets)))
+    let calls := !v.calls.all (fun c => decide (c.1 ≠ k) || decide (c.2.1 = c.2.2))
+    if listed || dets || calls then none
+    else if owned && singleWeightIn e then none
+    else if leak && launchesPromptIn e && singleWeightIn e then none
+    else if owned then some "destroy_hooks_unreleased"
+    else if leak then (if !launchesPromptIn e then some "launch_pending_leak" else some "destroy_hooks_unreleased")
+    else none
+
+/-- What the round's results oblige: environments that must be clean afterwards. -/
+def claims (c : RoundCtx) : List (Nat × Bool) :=
+  (c.ops.zipIdx).filterMap (fun p =>
+    match p.1, c.ro.results.getD p.2 .hang with
+    | .destroy k _ _ kp, .ok => some (k, kp)
+    | .new k, .err _ => some (k, false)
+    | _, _ => none)
+
+def judge (sc : Scenario) (ctxs : List RoundCtx) : Bool × String :=
+  let rec go (cs : List RoundCtx) : Bool × String :=
+    match cs with
+    | [] => (true, "-")
+    | c :: rest =>
+      let cl := claims c
+      if specC06Round cl c.hungNow c.ro.hk c.after then go rest
+      else if c.after.crashed || !hooksAfterRelease c.ro.hk then (false, "-")
+      else if c.hungNow then (false, "teardown_rendezvous_race")
+      else
+        let bad := cl.filter (fun x => !cleanAfter x.1 x.2 c.after)
+        let ex := bad.map (fun x => explain sc x.1 x.2 c.after)
+        if ex.all Option.isSome then (false, (ex.head?.getD none).getD "-") else (false, "-")
+  go ctxs
+
+def processLine (line : String) : String := processWith judge line
 
 end Driver.C06
